@@ -244,7 +244,10 @@ static Token *tokenize_at(char *buf, Token *tmpl) {
   // Diagnostics refer to `tmpl`. (A copy, because a caller may
   // overwrite `tmpl` itself with the result.)
   Token *origin = copy_token(tmpl);
+  Token *saved = made_by;
+  made_by = origin;
   Token *tok = tokenize(file);
+  made_by = saved;
   for (Token *t = tok; t; t = t->next) {
     t->line_no = tmpl->line_no;
     t->origin = origin;
